@@ -304,9 +304,9 @@ def r3(ctx, R):
     handed = False
     for c in adds:
         lp = enclosing_for(rb, c)
-        it = q.origin(rb, lp.iter) if lp is not None else None
-        if isinstance(it, ast.Call) and isinstance(it.func, ast.Name) and it.func.id in ("list", "tuple", "set") and it.args:
-            it = it.args[0]
+        it, snap = q.unsnapshot(rb, lp.iter) if lp is not None else (None, False)
+        if lp is not None and not snap:
+            R.bad(rb, lp, "the predecessors of the failed node are iterated live while edges are added")
         ok = (q.anorm(rb, c.func.value) == "node[OBJ].model.tracegraph" and len(c.args) == 2 and lp is not None
               and isinstance(lp.target, ast.Name) and norm(c.args[0]) == lp.target.id
               and q.anorm(rb, c.args[1]) == TOP
